@@ -205,6 +205,21 @@ func (pc *provCache) compute(v ssa.Value) ProvSet {
 	case *ssa.Alloc:
 		s.addAll(pc.allocContents(x))
 	case *ssa.FieldAddr:
+		if al, path, ok := addrPath(x); ok {
+			s.addAll(pc.allocContentsPath(al, path))
+			// field items of the enclosing path
+			for q := ssa.Value(x); ; {
+				fa, isFA := q.(*ssa.FieldAddr)
+				if !isFA {
+					break
+				}
+				if f := fieldName(fa.X.Type(), fa.Field); f != "" {
+					s["field:"+f] = true
+				}
+				q = fa.X
+			}
+			break
+		}
 		s.addAll(pc.prov(x.X))
 		if f := fieldName(x.X.Type(), x.Field); f != "" {
 			s["field:"+f] = true
@@ -317,7 +332,46 @@ func isPointerLike(v ssa.Value) bool {
 	return false
 }
 
-func (pc *provCache) allocContents(a *ssa.Alloc) ProvSet {
+// addrPath resolves a chain of FieldAddr on a local alloc to the alloc and the
+// field index path.
+func addrPath(v ssa.Value) (*ssa.Alloc, []int, bool) {
+	var rev []int
+	for i := 0; i < 16; i++ {
+		switch x := v.(type) {
+		case *ssa.FieldAddr:
+			rev = append(rev, x.Field)
+			v = x.X
+		case *ssa.Alloc:
+			path := make([]int, len(rev))
+			for j := range rev {
+				path[j] = rev[len(rev)-1-j]
+			}
+			return x, path, true
+		default:
+			return nil, nil, false
+		}
+	}
+	return nil, nil, false
+}
+
+func pathCompatible(a, b []int) bool {
+	n := len(a)
+	if len(b) < n {
+		n = len(b)
+	}
+	for i := 0; i < n; i++ {
+		if a[i] != b[i] {
+			return false
+		}
+	}
+	return true
+}
+
+func (pc *provCache) allocContents(a *ssa.Alloc) ProvSet { return pc.allocContentsPath(a, nil) }
+
+// allocContentsPath is allocContents restricted to what may be stored at the
+// given field path (stores to sibling fields are excluded).
+func (pc *provCache) allocContentsPath(a *ssa.Alloc, path []int) ProvSet {
 	pc.indexAllocs()
 	s := ProvSet{}
 	for _, d := range pc.escapes[a] {
@@ -336,6 +390,11 @@ func (pc *provCache) allocContents(a *ssa.Alloc) ProvSet {
 	for _, in := range pc.allocUse[a] {
 		switch x := in.(type) {
 		case *ssa.Store:
+			if len(path) > 0 {
+				if _, sp, ok := addrPath(x.Addr); ok && !pathCompatible(sp, path) {
+					continue
+				}
+			}
 			s.addAll(pc.prov(x.Val))
 		case ssa.CallInstruction:
 			c := x.Common()
